@@ -2,6 +2,7 @@
 // cases and prints one canonical line per case: "<family>\t<input>\t<impl result>".
 // The extracted Coq model (extract/driver) reads these lines and reports disagreements.
 mod fam_lex;
+mod gen;
 mod fam_lit;
 mod fam_pk;
 mod fam_sema;
@@ -9,6 +10,7 @@ mod fam_semt;
 mod fam_semw;
 mod sema;
 mod fam_tree;
+mod fam_use;
 mod fam_symtab;
 mod fam_types;
 mod util;
@@ -30,6 +32,7 @@ fn main() {
         "sema" => fam_sema::run(rest),
         "semt" => fam_semt::run(rest),
         "semw" => fam_semw::run(rest),
+        "use" => fam_use::run(rest),
         f => {
             eprintln!("unknown family {f}");
             std::process::exit(2);
